@@ -56,6 +56,8 @@ type VC struct {
 	strOfArr  map[string]string // content-array constant of []byte(s) -> s
 	defs      map[string]string // defined name -> term
 	globalsDone map[string]bool
+	sliceUF   bool            // unit option `sliceidx uf`: slice indices use the gidx function in bv mode too (see eidx)
+	with      map[string]bool // lemmas of `scope explicit` this unit asked for (contract clause `with a b`)
 	fnStore   map[string][3]string // heap version name -> (object, function value, previous version) of the store that produced it (function-typed fields only)
 	allocNames map[string]bool     // references created by allocRef: pairwise distinct
 	opaque    map[string]bool // spec fns whose definition is hidden in this unit (clause `opaque pkg.f ...`)
@@ -231,11 +233,37 @@ func (vc *VC) hget(st *State, key, sort string) string {
 		vc.heapSorts[key] = sort
 		n := vc.heapInit(key)
 		vc.declare(n, "(declare-const "+n+" "+sort+")")
+		vc.heapRange(key, n, false)
 	}
 	if t, ok := st.heap[key]; ok {
 		return t
 	}
 	return vc.heapInit(key)
+}
+
+// heapRange: int mode only. Memory of a basic integer element type holds values of that type: every symbolic
+// version of such an element heap (the initial one and every havoc) satisfies the range of the element type.
+// (Code loads already assume this for the loaded value; stating it for the heap version makes it available to
+// spec-level reads too, e.g. to discharge the range guard of a quantified `w uint32` instantiated at `old(s[i])`.)
+var basicIntRange = map[string][2]interface{}{"uint8": {8, false}, "byte": {8, false}, "uint16": {16, false}, "uint32": {32, false}, "uint64": {64, false},
+	"int8": {8, true}, "int16": {16, true}, "int32": {32, true}, "rune": {32, true}, "int64": {64, true}, "int": {64, true}, "uint": {64, false}}
+
+func (vc *VC) heapRange(key, term string, inner bool) {
+	if vc.mode != ModeInt || !strings.HasPrefix(key, "E:") {
+		return
+	}
+	r, ok := basicIntRange[strings.TrimPrefix(key, "E:")]
+	if !ok {
+		return
+	}
+	bits, signed := r[0].(int), r[1].(bool)
+	if inner {
+		app := "(select " + term + " i)"
+		vc.axiom("(forall ((i Int)) (! " + vc.inRange(app, bits, signed) + " :pattern (" + app + ")))")
+		return
+	}
+	app := "(select (select " + term + " a) i)"
+	vc.axiom("(forall ((a Int) (i Int)) (! " + vc.inRange(app, bits, signed) + " :pattern (" + app + ")))")
 }
 
 func (vc *VC) hset(st *State, key, sort, term string) {
@@ -667,7 +695,23 @@ func (vc *VC) script(o *Obligation, wantModel bool) string {
 		b.WriteString("(set-option :produce-models true)\n")
 	}
 	b.WriteString("(set-logic ALL)\n")
-	for _, f := range vc.facts[:o.NFacts] {
+	// The string prelude (sort Str, gs.* and three quantified axioms) is emitted by NewVC for every VC. When nothing
+	// else mentions strings it is dropped from the script: the remaining problem is often quantifier-free, and the
+	// solvers are much faster on it (dropping unused declarations/axioms cannot make a goal provable that was not).
+	const nPrelude = 7
+	usesStr := strings.Contains(o.Goal, "gs.") || strings.Contains(o.Goal, "Str")
+	for i, f := range vc.facts[:o.NFacts] {
+		if usesStr {
+			break
+		}
+		if i >= nPrelude && (strings.Contains(f, "gs.") || strings.Contains(f, " Str")) {
+			usesStr = true
+		}
+	}
+	for i, f := range vc.facts[:o.NFacts] {
+		if !usesStr && i < nPrelude && (strings.Contains(f, "gs.") || strings.Contains(f, "declare-sort Str")) {
+			continue
+		}
 		if strings.HasPrefix(f, "\x01") {
 			k := strings.Index(f[1:], "\x01")
 			var oi int
